@@ -445,20 +445,24 @@ class KademliaProtocol(DatagramProtocol):
             log.debug("error raised handling %s request from %s:%i - %s(%s)",
                       request_datagram.method, peer.address, peer.udp_port, str(type(err)),
                       str(err))
-            self.send_error(
-                peer,
-                ErrorDatagram(ERROR_TYPE, request_datagram.rpc_id, self.node_id, str(type(err)).encode(),
-                              str(err).encode())
-            )
+            self._reply_with_error(peer, request_datagram, err)
         except Exception as err:
             log.warning("error raised handling %s request from %s:%i - %s(%s)",
                         request_datagram.method, peer.address, peer.udp_port, str(type(err)),
                         str(err))
+            self._reply_with_error(peer, request_datagram, err)
+
+    def _reply_with_error(self, peer: 'KademliaPeer', request_datagram: RequestDatagram, err: Exception):
+        try:
             self.send_error(
                 peer,
                 ErrorDatagram(ERROR_TYPE, request_datagram.rpc_id, self.node_id, str(type(err)).encode(),
                               str(err).encode())
             )
+        except ValueError:
+            # the error text repeats input from the request (e.g. an unknown method name) and may not fit in a
+            # datagram; the request is dropped and counted against the sender as if the reply had been sent
+            self.peer_manager.report_failure(peer.address, peer.udp_port)
 
     def handle_response_datagram(self, address: typing.Tuple[str, int], response_datagram: ResponseDatagram):
         # Find the message that triggered this response
